@@ -27,7 +27,7 @@ MOD = {}
 PKT = 'pkt'
 
 
-def load_program(target, workdir):
+def load_program(target, workdir, defs=(), suffix='', text_only=False):
     t = build.cmake_targets()
     if target not in t:
         raise Broken('CMake target %s not found' % target)
@@ -37,13 +37,27 @@ def load_program(target, workdir):
             srcs += t[l]['sources']
     incs = [os.path.join(build.REPO, i) for i in ('examples', 'include')]
     try:
-        bcs = build.compile_units([os.path.join(build.REPO, s) for s in srcs], os.path.join(workdir, 'p_' + target),
-                                  std=t['__std__'], includes=incs)
-        ll = os.path.join(workdir, target + '.ll')
+        bcs = build.compile_units([os.path.join(build.REPO, s) for s in srcs], os.path.join(workdir, 'p_' + target + suffix),
+                                  std=t['__std__'], includes=incs, defs=defs, debug=not text_only)
+        ll = os.path.join(workdir, target + suffix + '.ll')
         build.link_ll(bcs, ll)
     except build.BuildError as e:
         raise Broken(str(e))
+    if text_only:
+        return [l for l in open(ll) if l.strip() and not l.startswith((';', '!', 'source_filename'))]
     return irparse.parse_module(open(ll).read(), ll)
+
+
+def ndebug_differs(workdir):
+    """CMake's Release, RelWithDebInfo and MinSizeRel configurations compile the examples with -DNDEBUG: is the code of
+    either program (its own units and the library units linked into it) different then?  Compared as metadata-free IR."""
+    out = []
+    for target in ('acf-can-talker', 'acf-can-listener'):
+        a = load_program(target, workdir, suffix='_cmpdef', text_only=True)
+        b = load_program(target, workdir, defs=('NDEBUG',), suffix='_cmpnd', text_only=True)
+        if a != b:
+            out.append(target)
+    return out
 
 
 def gregion(mod, name, value):
@@ -483,8 +497,26 @@ def compress(ls):
 
 def run(tier, res):
     d = build.scratch()
-    MOD['talker'] = load_program('acf-can-talker', d)
-    MOD['listener'] = load_program('acf-can-listener', d)
+    run_config(tier, res, d, (), '')
+    nd = ndebug_differs(d)
+    if nd:
+        res.assumptions.append('configurations analysed: default flags of CMakeLists.txt and -DNDEBUG (the code of %s differs under it)'
+                               % ' and '.join(nd))
+        run_config(tier, res, d, ('NDEBUG',), ' [-DNDEBUG build]')
+    else:
+        res.assumptions.append('configurations analysed: default flags of CMakeLists.txt; -DNDEBUG yields identical IR for both '
+                               'programs, nothing further to decide')
+    res.rule = __doc__
+    res.explanation = __doc__
+    res.assumptions += ['the listener main()/poll loop and option parsing are not analysed', 'input frames are well-formed',
+                        'recv/write/clock_gettime/stdio are modelled']
+    build.cleanup()
+    return res
+
+
+def run_config(tier, res, d, defs, tag):
+    MOD['talker'] = load_program('acf-can-talker', d, defs=defs, suffix='_nd' if defs else '')
+    MOD['listener'] = load_program('acf-can-listener', d, defs=defs, suffix='_nd' if defs else '')
     if 'main' not in MOD['talker'].functions:
         raise Broken('talker main() not found (anchor vanished)')
     if 'new_packet' not in MOD['listener'].functions:
@@ -495,15 +527,15 @@ def run(tier, res):
     for t, (issues, n_asp, n_ok, smp) in zip(sc, outs):
         if smp and (len(t[3]) > 1 or t[3][0][1] in (0, 8, 64)):
             res.sample(smp, limit=6)
-        res.count('tunnel scenarios analysed (control format x encapsulation x variant x frames)')
+        res.count('tunnel scenarios analysed (control format x encapsulation x variant x frames)' + tag)
         if smp and smp.get('input_generality_level'):
-            res.count('scenarios decided with flags/timestamp/identifiers fixed (talker control depends on frame data)')
-        res.count('aspects compared (announced length, frame count, identifier, flags, length, data)', n_asp)
+            res.count('scenarios decided with flags/timestamp/identifiers fixed (talker control depends on frame data)' + tag)
+        res.count('aspects compared (announced length, frame count, identifier, flags, length, data)' + tag, n_asp)
         res.obligations += n_asp
         res.discharged += n_ok
         for st, key, text in issues:
             if st == 'undecided':
-                res.undec(text)
+                res.undec(text + tag)
                 continue
             variant = 'fd' if t[2] else 'classic'
             k = 'tunnel:%s:%s' % (variant, key)
@@ -522,14 +554,8 @@ def run(tier, res):
             suffix = ':L' + compress(lens)
         elif lens and lens != full and not (lens >= {0, 1, 3, 4, 8}):
             suffix = ':L' + compress(lens)
-        res.violations.append({'key': k + suffix, 'detail': {}, 'text': '%s [%d scenario(s) fail this way%s]'
-                               % (a['text'], a['n'], (', single-frame lengths ' + compress(lens)) if lens else '')})
-    res.rule = __doc__
-    res.explanation = __doc__
-    res.assumptions += ['the listener main()/poll loop and option parsing are not analysed', 'input frames are well-formed',
-                        'recv/write/clock_gettime/stdio are modelled']
-    build.cleanup()
-    return res
+        res.violations.append({'key': k + suffix + tag, 'detail': {}, 'text': '%s [%d scenario(s) fail this way%s]%s'
+                               % (a['text'], a['n'], (', single-frame lengths ' + compress(lens)) if lens else '', tag)})
 
 
 def main(tier, seed):
